@@ -294,6 +294,52 @@ def minimal_value(s):
     return ("rec", [mini(f, f["ty"]) for f in s["fields"]])
 
 
+
+# ------------------------------------------------------------------ values of an exact encoded size
+
+def stretchable(fields, v):
+    """the text / byte payloads of a value whose length may be chosen freely (found through present optionals and nested
+    records); returned as (field, list) pairs — the list is the value's own and may be resized in place"""
+    out = []
+
+    def walk(f, ty, x):
+        k = ty["k"]
+        if k == "opt":
+            if x is not None:
+                walk(f, ty["t"], x[1])
+        elif k == "struct":
+            for g, y in zip(ty["fields"], x[1]):
+                walk(g, g["ty"], y)
+        elif k == "prim" and fixed_n(f["length"]) is None and f["length"] not in ("LEmpty", "LTemperature"):
+            if ty["p"] == "String" and f["encoding"] == "Default":
+                out.append((f, x[1], 0x41))
+            elif ty["p"] == "Bytes":
+                out.append((f, x[1], 0x5a))
+    for f, x in zip(fields, v[1]):
+        walk(f, f["ty"], x)
+    return out
+
+
+def resize_to(rng, fields, v, size_of, target):
+    """resize one free payload of v (in place) until size_of(v) == target; False when that is not possible"""
+    cands = stretchable(fields, v)
+    rng.shuffle(cands)
+    for f, lst, fill in cands:
+        keep = list(lst)
+        for _ in range(6):
+            try:
+                cur = size_of(v)
+            except ValueError:
+                break
+            if cur == target:
+                return True
+            n = len(lst) + target - cur
+            if n < (1 if fill == 0x5a else 0) or n > payload_limit(f["length"]):
+                break
+            lst[:] = (lst + [fill] * n)[:n]
+        lst[:] = keep
+    return False
+
 # ------------------------------------------------------------------ structure-aware mutations
 
 def mutate(rng, b):
